@@ -442,8 +442,10 @@ pub fn evaluate_ast(
                 ));
             }
 
-            // Check if the variable already exists (immutability check)
-            if bindings.contains_key(ident) {
+            // Check if the variable already exists (immutability check). Inside a function
+            // call only the function's own names count - its block scopes, parameters and
+            // captured scope - so that a call behaves the same wherever it is made from
+            if bindings.contains_key_in_function(ident) {
                 return Err(RuntimeError::with_span(
                     format!("{} is already defined, and cannot be reassigned", ident),
                     expr.span,
@@ -461,7 +463,7 @@ pub fn evaluate_ast(
             )?;
 
             // The right-hand side may itself have bound the name (`x = (x = 1) + 1`)
-            if bindings.contains_key(ident) {
+            if bindings.contains_key_in_function(ident) {
                 return Err(RuntimeError::with_span(
                     format!("{} is already defined, and cannot be reassigned", ident),
                     expr.span,
